@@ -14,13 +14,14 @@ pub fn check(t: &Trace<'_>, out: &mut CaseOut) -> bool {
     for ci in t.conns.iter().filter(|c| c.established) {
         let c = &w.conns[ci.idx];
         let cop = &t.log.ops[ci.connect_op.unwrap()];
+        // effective keep-alive: the broker's Server Keep Alive if present, otherwise the configured value
         let ka_s: u64 = match ci.ska {
             Some(k) => k as u64,
-            None => match c.out.packets.first().map(|p| &p.pkt) {
-                Some(CPacket::Connect { keepalive, .. }) => *keepalive as u64,
-                _ => continue,
-            },
+            None => t.log.cfg.keepalive as u64,
         };
+        if ci.ska.is_none() && ci.idx > 0 && t.conns[..ci.idx].iter().any(|p| p.ska.is_some_and(|k| k != t.log.cfg.keepalive)) {
+            out.count("connections_without_override_after_one_with_override", 1);
+        }
         let ka = ka_s * 1_000_000;
         out.key(format!("ka={}/override={:?}", ka_s.min(100), ci.ska.map(|k| k.min(100))));
         let ops: Vec<&OpRec> = t.log.ops.iter().filter(|o| o.conn == Some(ci.idx) && o.ev_call > cop.ev_ret).collect();
